@@ -1,12 +1,18 @@
 (* C12 - statements only.  Model: FS/Exf.v (state = kernel file bytes, fsize, maxoff, psize, mmap slots, policy).
    Specification: a flat byte array whose length is the size (FS/Exf.v: flat and the spec_ functions).
-   Side conditions used below (FS/Exf_proofs.v): Inv (page size a power of two <= 2^31, fsize page aligned <= 2^61 and equal
-   to the length of the kernel file, maxoff aligned, slots sorted/disjoint/aligned with len = min maxlen (fsize-off), all
-   MAP_SHARED), op_ok (arguments in [0, 2^61], so no C integer wraps; requested windows MAP_SHARED),
-   FixedQ (the three behavioural facts of the current tree are those of the repaired code).
-   `ok : os_ok` is the operating system: `ok n = false` means it refuses to grow the file to n bytes (RLIMIT_FSIZE/EFBIG,
-   ENOSPC, quota).  Every theorem holds for EVERY such oracle; `os_any` never refuses. *)
-Require Import ZArith List Bool. Require Import IW.Lib.CInt IW.Gen.Facts IW.FS.Exf IW.FS.Exf_proofs.
+   Side conditions used below (FS/Exf_inv.v, Exf_proofs.v):
+   Inv    page size a power of two <= 2^31, fsize page aligned <= 2^61 and equal to the length of the kernel file, maxoff aligned,
+          slots sorted/disjoint/aligned, every mapped length page aligned and <= min maxlen (fsize-off) (less only after a refused
+          mmap), private windows with one entry per page;
+   Shared every window MAP_SHARED;   Full  every window mapped as far as the size allows;
+   op_ok  arguments in [0, 2^61] (no C integer wraps);  shared_op  the call registers no MAP_PRIVATE window;
+   quiet  (private windows) the call leaves every mapped private window mapped as it is, see (3b);
+   FixedQ the three behavioural facts of the current tree are those of the repaired code.
+   `ok : os_ok` is the operating system: `os_grow ok n = false` - it refuses to grow the file to n bytes (RLIMIT_FSIZE/EFBIG,
+   ENOSPC, quota); `os_map ok t = false` - it refuses an mmap that would bring the windows of this file to t bytes (ENOMEM:
+   RLIMIT_AS, vm.max_map_count).  Bud ok st: it refuses mappings by a budget (what is mapped is within it, less is always granted).
+   The theorems hold for EVERY such oracle; `os_any` never refuses. *)
+Require Import ZArith List Bool. Require Import IW.Lib.CInt IW.Gen.Facts IW.FS.Exf IW.FS.Exf_proofs IW.FS.ExfFile IW.FS.ExfFile_proofs.
 Import ListNotations. Local Open Scope Z_scope.
 
 (* (1) the macro of the current source is interval intersection for non-empty intervals *)
@@ -29,6 +35,14 @@ Theorem C12_split_covers : forall ps fsz ss off siz, LayoutInv ps fsz ss -> 0 <=
 Proof. exact split_covers. Qed.
 Print Assumptions C12_split_covers.
 
+(* ... and when the operating system has left windows unmapped or shorter (refused mmap; shared windows), or with private windows
+   mapped in full: the pieces are consecutive, a window piece lies inside the mapped part of its window, a file piece touches no
+   byte of a mapped MAP_PRIVATE window *)
+Theorem C12_split_covers_weak : forall ps fsz ss off siz, SlotsInv ps fsz ss -> SharedL ss \/ FullL fsz ss -> 0 <= siz ->
+  Chain off (split_all ss off siz) (off + siz) /\ Forall (piece_v (map erase ss)) (split_all ss off siz).
+Proof. exact split_pieces_v. Qed.
+Print Assumptions C12_split_covers_weak.
+
 Definition ex_slots : list slot := [mkSlot 4096 4096 4096 false []; mkSlot 12288 8192 8192 true [None; None]; mkSlot 24576 4096 0 false []].
 Example C12_split_covers_ex :
   LayoutInv 4096 20480 ex_slots /\
@@ -39,13 +53,33 @@ Proof.
   unfold ex_slots. repeat (constructor; simpl; try reflexivity; try Lia.lia).
 Qed.
 
-(* (3) refinement: for every history of calls (shared windows) every answer and the final content are those of the flat
+(* (3a) refinement, MAP_SHARED windows: for every history of calls every answer and the final content are those of the flat
    array machine - windows, the split, remapping on resize and the copy paths are invisible; a growth the operating system
-   refuses is, on both sides, the I/O error with every byte and the size kept (spec_grow) *)
-Theorem C12_read_last_write : forall q ok os st rs st', FixedQ q -> Inv st -> RunOk q ok st os -> run q ok st os = (rs, st') ->
-  spec_run_rel (psize st) ok (abs st) os rs (abs st') /\ Inv st' /\ psize st' = psize st /\ maxoff st' = maxoff st.
+   refuses is, on both sides, the I/O error with every byte and the size kept (spec_grow); a window the operating system
+   refuses to map makes the call answer IW_ERROR_ERRNO with every byte and the size kept (spec_mapfail) and from then on that
+   window is served through the file - every later answer is still the one of the flat array *)
+Theorem C12_read_last_write : forall q ok os st rs st', FixedQ q -> Inv st -> Bud ok st -> Shared st -> RunOk q ok st os ->
+  run q ok st os = (rs, st') ->
+  spec_run_rel (psize st) ok (abs st) os rs (abs st') /\ Inv st' /\ Bud ok st' /\ Shared st' /\ psize st' = psize st /\ maxoff st' = maxoff st.
 Proof. exact run_refines. Qed.
 Print Assumptions C12_read_last_write.
+
+(* (3b) refinement with MAP_PRIVATE windows.  What a reader sees (`view`) is the file with the content of every mapped private
+   window laid over it.  For every history of calls in which no mapped private window is remapped (PRunOk: each call keeps
+   the mapped length of every mapped private window - "between two remaps" -, a copy goes through the first window or touches
+   no mapped private window, a removed window holds no byte written through it) and mmap is not refused, every answer and the
+   final view are those of the flat array machine: a read of any range returns the most recent bytes written there, through
+   whatever route - shared window, private window, file - they were written *)
+Theorem C12_private_read_last_write : forall q ok os st rs st', FixedQ q -> MapAll ok -> Inv st -> Full st -> PRunOk q ok st os ->
+  run q ok st os = (rs, st') ->
+  spec_run_rel (psize st) ok (vabs st) os rs (vabs st') /\ Inv st' /\ Full st' /\ psize st' = psize st /\ maxoff st' = maxoff st.
+Proof. exact run_refines_private. Qed.
+Print Assumptions C12_private_read_last_write.
+
+(* without private windows the view is the file: (3b) says what (3a) says *)
+Theorem C12_view_shared : forall st, Shared st -> view st = file st.
+Proof. exact view_shared. Qed.
+Print Assumptions C12_view_shared.
 
 (* ... and on the flat array the last write wins, other bytes are kept, new space reads as zero *)
 Theorem C12_flat_read_after_write : forall ps ok a off d sp a', 0 < ps -> 0 <= off ->
@@ -64,38 +98,80 @@ Proof. exact ftrunc_zero_tail. Qed.
 Print Assumptions C12_flat_zero_fill.
 
 (* (4) the size: page aligned, never above maxoff, equal to the length of the file on disk, which is what the next open sees *)
-Theorem C12_size_inv : forall q ok os st rs st', FixedQ q -> Inv st -> RunOk q ok st os -> run q ok st os = (rs, st') ->
+Theorem C12_size_inv : forall q ok os st rs st', FixedQ q -> Inv st -> Bud ok st -> Shared st -> RunOk q ok st os -> run q ok st os = (rs, st') ->
   fsize st' mod psize st' = 0 /\ (maxoff st' = 0 \/ fsize st' <= maxoff st') /\ zlen (file st') = fsize st' /\
   maxoff st' = maxoff st.
 Proof. exact size_inv. Qed.
 Print Assumptions C12_size_inv.
 
-Theorem C12_reopen_same : forall ok st mo p, Inv st -> psize st = EXF_PSIZE ->
-  exists st2, exfile_open ok (file st) 0 mo p = (0, st2) /\ fsize st2 = fsize st /\ file st2 = file st.
+Theorem C12_size_inv_private : forall q ok os st rs st', FixedQ q -> MapAll ok -> Inv st -> Full st -> PRunOk q ok st os -> run q ok st os = (rs, st') ->
+  fsize st' mod psize st' = 0 /\ (maxoff st' = 0 \/ fsize st' <= maxoff st') /\ zlen (file st') = fsize st' /\
+  maxoff st' = maxoff st.
+Proof. exact size_inv_private. Qed.
+Print Assumptions C12_size_inv_private.
+
+Theorem C12_reopen_same : forall q ok st mo p, Inv st -> psize st = EXF_PSIZE -> (mo <= 0 \/ EXF_PSIZE <= mo) ->
+  exists st2, exfile_open q ok (file st) 0 mo p = (0, st2) /\ fsize st2 = fsize st /\ file st2 = file st.
 Proof. exact reopen_same. Qed.
 Print Assumptions C12_reopen_same.
 
-(* (5) a growth the operating system refuses.  For EVERY call with EVERY argument (no range condition) on a state that
+(* (5) the refusals of the operating system.  For EVERY call with EVERY argument (no range condition) on a state that
    satisfies the invariant:
-   - a call that answers the I/O error has left the file bytes, the reported size, the limit and every window exactly as they
-     were (only the context of the resize policy may have advanced, it was consulted before the attempt), and transferred nothing;
+   - a call that answers the I/O error (growth refused) or IW_ERROR_ERRNO (a window cannot be mapped, also after the file has grown
+     already) has left the file bytes, the reported size and the limit exactly as they were and transferred nothing; the windows
+     are the same windows (offset, maximal length, kind) - remapped, or unmapped and served through the file;
+   - if no refused mapping was outstanding, a refused growth leaves the whole state as it was (only the context of the resize
+     policy may have advanced, it was consulted before the attempt);
    - whenever the reported size has grown, the operating system accepted exactly that size: no call ever reports a size the
      file does not have. *)
-Theorem C12_refused_growth_unchanged : forall q ok st o r st', Inv st -> step q ok st o = (r, st') ->
-  (o_rc r = EXF_E_IO -> st' = set_pol st (pol st') /\ o_sp r = 0) /\ (fsize st < fsize st' -> ok (fsize st') = true).
+Theorem C12_refused_growth_unchanged : forall q ok st o r st', Inv st -> Bud ok st -> step q ok st o = (r, st') ->
+  ((o_rc r = EXF_E_IO \/ o_rc r = EXF_E_ERRNO) ->
+     file st' = file st /\ fsize st' = fsize st /\ maxoff st' = maxoff st /\ GeoSame (slots st) (slots st') /\ o_sp r = 0) /\
+  (Full st -> o_rc r = EXF_E_IO -> st' = set_pol st (pol st')) /\
+  (fsize st < fsize st' -> os_grow ok (fsize st') = true).
 Proof. exact step_os. Qed.
 Print Assumptions C12_refused_growth_unchanged.
 
 (* ... and the refusal is reported: a growth within the rules (maxoff) that the operating system refuses returns the I/O
    error and the state before the call *)
-Theorem C12_refused_growth_is_error : forall ok st size, Inv st -> 0 <= size <= LIM ->
+Theorem C12_refused_growth_is_error : forall ok st size, Inv st -> Full st -> 0 <= size <= LIM ->
   fsize st < rup size (psize st) -> (maxoff st = 0 \/ rup size (psize st) <= maxoff st) ->
-  ok (rup size (psize st)) = false -> truncate_lw ok st size = (EXF_E_IO, st).
+  os_grow ok (rup size (psize st)) = false -> truncate_lw ok st size = (EXF_E_IO, st).
 Proof. exact truncate_lw_refused. Qed.
 Print Assumptions C12_refused_growth_is_error.
 
+(* ... a growth the operating system grants while the first window, which has to follow it, cannot be mapped: the answer is
+   IW_ERROR_ERRNO, the size is the old one and the file holds the old bytes (the space is given back) *)
+Theorem C12_refused_remap_is_error : forall ok st size s tl, Inv st -> 0 <= size <= LIM -> slots st = s :: tl ->
+  fsize st < rup size (psize st) -> (maxoff st = 0 \/ rup size (psize st) <= maxoff st) ->
+  os_grow ok (rup size (psize st)) = true ->
+  slot_nlen (rup size (psize st)) s <> s_len s ->
+  os_map ok (mapped_total tl + slot_nlen (rup size (psize st)) s) = false ->
+  fst (truncate_lw ok st size) = EXF_E_ERRNO /\ fsize (snd (truncate_lw ok st size)) = fsize st /\
+  file (snd (truncate_lw ok st size)) = file st.
+Proof. exact truncate_lw_mapfail. Qed.
+Print Assumptions C12_refused_remap_is_error.
+
+(* when mmap is never refused _exfile_initmmap_lw re-derives every window; a list whose windows are all mapped as far as the
+   size allows is left alone whatever the operating system would answer *)
+Theorem C12_initmmap_total : forall ok ps fsz ss, MapAll ok -> initmmap ok ps fsz ss = (0, pinit ps fsz ss).
+Proof. intros. apply initmmap_from_all. assumption. Qed.
+Print Assumptions C12_initmmap_total.
+
+(* the queries about windows agree, and a window that probe_mmap/acquire_mmap hand out lies inside the file and is page
+   aligned (reading through the pointer over the reported length does not fault) *)
+Theorem C12_probe_inside_file : forall st off rc sp, Inv st -> probe_mmap (slots st) off = (rc, sp) ->
+  acquire_mmap (slots st) off = (rc, sp) /\ sync_mmap (slots st) off = rc /\
+  ((rc = 0 /\ 0 < sp /\ sp mod psize st = 0 /\ off + sp <= fsize st /\ exists s, In s (slots st) /\ s_off s = off /\ s_len s = sp) \/
+   (rc = EXF_E_NOTMM /\ sp = 0)).
+Proof.
+  intros st off rc sp HI E. split; [rewrite acquire_probe; exact E |]. split; [rewrite sync_probe, E; reflexivity |].
+  exact (probe_inside _ _ _ _ _ _ (inv_slots st HI) E).
+Qed.
+Print Assumptions C12_probe_inside_file.
+
 (* on the flat array: the refused size change answers the I/O error and keeps every byte *)
-Theorem C12_flat_refused : forall ok a n p, zlen (a_bytes a) < n -> ok n = false ->
+Theorem C12_flat_refused : forall ok a n p, zlen (a_bytes a) < n -> os_grow ok n = false ->
   spec_grow ok a n p = (EXF_E_IO, mkFlat (a_bytes a) (a_maxoff a) p).
 Proof. exact spec_grow_refused. Qed.
 Print Assumptions C12_flat_refused.
@@ -111,29 +187,69 @@ Qed.
 Print Assumptions C12_policy_follows.
 
 (* the state iwfs_exfile_open returns satisfies the invariant (so the theorems above apply to every opened file) *)
-Theorem C12_open_inv : forall ok f initial mo p rc st, PsOk EXF_PSIZE -> zlen f <= LIM -> 0 <= initial <= LIM -> 0 <= mo <= LIM ->
+Theorem C12_open_inv : forall q ok f initial mo p rc st, PsOk EXF_PSIZE -> zlen f <= LIM -> 0 <= initial <= LIM -> 0 <= mo <= LIM ->
   (mo < EXF_PSIZE \/ zlen f <= mo / EXF_PSIZE * EXF_PSIZE) -> pol_ok p ->
-  exfile_open ok f initial mo p = (rc, st) -> rc = 0 -> Inv st /\ psize st = EXF_PSIZE.
+  exfile_open q ok f initial mo p = (rc, st) -> rc = 0 -> Inv st /\ psize st = EXF_PSIZE /\ slots st = [].
 Proof. exact open_inv. Qed.
 Print Assumptions C12_open_inv.
 
+(* the configured maximum.  In the repaired variant (a maximum below one page is rejected by iwfs_exfile_open) an opened file has
+   the limit it was given, rounded down to a page - never "no limit" in its place; together with C12_size_inv: the size never
+   exceeds the configured maximum *)
+Theorem C12_maxoff_honoured : forall q ok f initial mo p st, q_maxoff_small q = true -> PsOk EXF_PSIZE -> 0 <= mo < 2 ^ 63 ->
+  exfile_open q ok f initial mo p = (0, st) ->
+  (mo = 0 /\ maxoff st = 0) \/ (0 < maxoff st <= mo /\ mo - EXF_PSIZE < maxoff st).
+Proof. exact maxoff_honoured. Qed.
+Print Assumptions C12_maxoff_honoured.
+
+(* ... which is false of the unrepaired variant (the tree as it is: EXF_SMALL_MAXOFF_REJECTED = false): a maximum of 100 bytes is
+   accepted and means "unlimited" - 300 bytes are written and the file has 4096 bytes (corpus/C12/09) *)
+Theorem C12_small_maxoff_refuted : exists mo, 0 < mo /\
+  let '(rc, st) := exfile_open orig_quirks os_any [] 0 mo PDefault in
+  rc = 0 /\ maxoff st = 0 /\ fsize (snd (exfile_write orig_quirks os_any st 0 (repeat 7 300))) = 4096.
+Proof. exists 100. vm_compute. repeat split; reflexivity. Qed.
+Print Assumptions C12_small_maxoff_refuted.
+
+(* the lock of the handle (use_locks = 1, one caller; `held` = read locks the caller holds).  In the repaired variant a call
+   either cannot proceed because the caller itself still holds a read lock from a successful acquire_mmap (nothing changes),
+   or it is the call of the model and only a successful acquire_mmap / a release_mmap change the number of locks held;
+   a caller that holds none is never blocked *)
+Theorem C12_lock_balance : forall q ok held st o r held' st', q_acq_unlocks q = true -> lstep q ok held st o = (r, held', st') ->
+  (o_rc r = EXF_HANG /\ 0 < held /\ needs_wlock st o = true /\ held' = held /\ st' = st) \/
+  ((r, st') = step q ok st o /\
+   held' = held + match o with OAcquire _ => if o_rc r =? 0 then 1 else 0 | ORelease => -1 | _ => 0 end).
+Proof. exact lstep_balance. Qed.
+Print Assumptions C12_lock_balance.
+
+
+
 (* the hypotheses are satisfiable and the current tree is the repaired one: a concrete history on a freshly opened file *)
-Definition ex_st : exf := snd (exfile_open os_any [] 0 12288 (PFibo 0)).
-Definition ex_ops : list op := [OAddMmap 4096 4096 0; OWrite 4090 [1; 2; 3; 4; 5; 6; 7; 8; 9; 10]; OCopy 4092 6 100; ORead 4088 14; ORead 100 6].
+Lemma ps_ok : PsOk EXF_PSIZE. Proof. exists 12. split; [Lia.lia | reflexivity]. Qed.
+Lemma opened_inv : forall ok f initial mo p, zlen f <= LIM -> 0 <= initial <= LIM -> 0 <= mo <= LIM ->
+  (mo < EXF_PSIZE \/ zlen f <= mo / EXF_PSIZE * EXF_PSIZE) -> pol_ok p -> fst (exfile_open tree_quirks ok f initial mo p) = 0 ->
+  Inv (snd (exfile_open tree_quirks ok f initial mo p)) /\ Shared (snd (exfile_open tree_quirks ok f initial mo p)) /\ Full (snd (exfile_open tree_quirks ok f initial mo p)).
+Proof.
+  intros ok f initial mo p H1 H2 H3 H4 H5 H6. destruct (exfile_open tree_quirks ok f initial mo p) as [rc st] eqn:E. simpl in *.
+  destruct (open_inv tree_quirks ok f initial mo p rc st ps_ok H1 H2 H3 H4 H5 E H6) as [A [_ C]]. split; [exact A |].
+  unfold Shared, Full, SharedL, FullL. rewrite C. split; constructor.
+Qed.
+
+Definition ex_st : exf := snd (exfile_open tree_quirks os_any [] 0 12288 (PFibo 0)).
+Lemma ex_st_ok : Inv ex_st /\ Shared ex_st /\ Full ex_st.
+Proof. apply opened_inv; vm_compute; intuition congruence. Qed.
+Definition ex_ops : list op := [OAddMmap 4096 4096 0; OWrite 4090 [1; 2; 3; 4; 5; 6; 7; 8; 9; 10]; OCopy 4092 6 100; ORead 4088 14; ORead 100 6;
+                                OProbe 4096; OAcquire 4096; ORelease; OSyncMmap 4096; OSyncMmap 0; OSync; ORemap; OState].
 Example C12_history_ex :
-  FixedQ tree_quirks /\ PsOk EXF_PSIZE /\ Inv ex_st /\ RunOk tree_quirks os_any ex_st ex_ops /\
-  map o_data (fst (run tree_quirks os_any ex_st ex_ops)) = [[]; []; []; [0; 0; 1; 2; 3; 4; 5; 6; 7; 8; 9; 10; 0; 0]; [3; 4; 5; 6; 7; 8]] /\
+  FixedQ tree_quirks /\ PsOk EXF_PSIZE /\ Inv ex_st /\ Bud os_any ex_st /\ Shared ex_st /\ RunOk tree_quirks os_any ex_st ex_ops /\
+  map o_data (fst (run tree_quirks os_any ex_st ex_ops)) =
+    [[]; []; []; [0; 0; 1; 2; 3; 4; 5; 6; 7; 8; 9; 10; 0; 0]; [3; 4; 5; 6; 7; 8]; []; []; []; []; []; []; []; []] /\
+  map (fun r => (o_rc r, o_sp r)) (fst (run tree_quirks os_any ex_st ex_ops)) =
+    [(0, 0); (0, 10); (0, 0); (0, 14); (0, 6); (0, 4096); (0, 4096); (0, 0); (0, 0); (EXF_E_NOTMM, 0); (0, 0); (0, 0); (0, 8192)] /\
   fsize (snd (run tree_quirks os_any ex_st ex_ops)) = 8192.
 Proof.
-  assert (HP : PsOk EXF_PSIZE) by (exists 12; split; [Lia.lia | reflexivity]).
-  split; [repeat split; reflexivity |]. split; [exact HP |].
-  split.
-  - destruct (exfile_open os_any [] 0 12288 (PFibo 0)) as [rc st] eqn:E.
-    assert (Hrc : rc = 0) by (vm_compute in E; inversion E; reflexivity).
-    unfold ex_st. rewrite E. simpl.
-    refine (proj1 (open_inv os_any [] 0 12288 (PFibo 0) rc st HP _ _ _ _ _ E Hrc)); try (vm_compute; intuition congruence).
-  - split; [| split; vm_compute; reflexivity].
-    vm_compute. repeat split; try (intros; discriminate); try (left; intros; discriminate).
+  split; [repeat split; reflexivity |]. split; [exact ps_ok |]. destruct ex_st_ok as [A [B C]].
+  split; [exact A |]. split; [apply budget_any |]. split; [exact B |].
+  split; [apply runok_b_ok; vm_compute; reflexivity | repeat split; vm_compute; reflexivity].
 Qed.
 
 (* a concrete history under RLIMIT_FSIZE = 8192 (fibo policy, a window over the second page that ends beyond the limit):
@@ -143,31 +259,80 @@ Definition ex_lim_ops : list op :=
   [OWrite 0 [1; 2; 3]; OAddMmap 4096 8192 0; OEnsure 12000; OWrite 9000 [7]; OCopy 0 3 12000; OTruncate 8193; ORead 0 4; OEnsure 8192;
    OWrite 8190 [9; 9; 9]; ORead 8188 4].
 Example C12_refused_ex :
-  Inv ex_st /\ RunOk tree_quirks (os_limit 8192) ex_st ex_lim_ops /\
+  Inv ex_st /\ Bud (os_limit 8192) ex_st /\ RunOk tree_quirks (os_limit 8192) ex_st ex_lim_ops /\
   map o_rc (fst (run tree_quirks (os_limit 8192) ex_st ex_lim_ops)) = [0; 0; EXF_E_IO; EXF_E_IO; EXF_E_IO; EXF_E_IO; 0; 0; EXF_E_IO; 0] /\
   map o_data (fst (run tree_quirks (os_limit 8192) ex_st ex_lim_ops)) = [[]; []; []; []; []; []; [1; 2; 3; 0]; []; []; [0; 0; 0; 0]] /\
   fsize (snd (run tree_quirks (os_limit 8192) ex_st ex_lim_ops)) = 8192 /\
   map s_len (slots (snd (run tree_quirks (os_limit 8192) ex_st ex_lim_ops))) = [4096] /\
   fst (step tree_quirks os_any (snd (run tree_quirks (os_limit 8192) ex_st ex_lim_ops)) (OWrite 8190 [9; 9; 9])) = mkOut 0 3 [].
 Proof.
-  split; [exact (proj1 (proj2 (proj2 C12_history_ex))) |].
-  split; [| repeat split; vm_compute; reflexivity].
-  vm_compute. repeat split; try (intros; discriminate); try (left; intros; discriminate).
+  split; [exact (proj1 ex_st_ok) |]. split; [apply budget_limit |].
+  split; [apply runok_b_ok; vm_compute; reflexivity | repeat split; vm_compute; reflexivity].
 Qed.
 
+(* a concrete history under an address-space budget of 8192 bytes for the windows (a whole-file window): the growth to
+   16 KiB is granted by the file system but the window cannot follow - IW_ERROR_ERRNO, size and bytes as before, the window
+   is mapped again over the old size; a growth within the budget succeeds; without the budget the same request succeeds *)
+Definition ex_st1 : exf := snd (exfile_open tree_quirks os_any [] 4096 0 PDefault).
+Lemma ex_st1_ok : Inv ex_st1 /\ Shared ex_st1 /\ Full ex_st1.
+Proof. apply opened_inv; vm_compute; intuition congruence. Qed.
+Definition ex_map_ops : list op :=
+  [OAddMmap 0 18446744073709551615 0; OWrite 0 [1; 2; 3]; OEnsure 16384; OState; OProbe 0; ORead 0 4; OWrite 16383 [9]; ORead 0 4;
+   OEnsure 8192; OProbe 0; OWrite 8190 [7; 7]; ORead 8189 3].
+Example C12_mapfail_ex :
+  Inv ex_st1 /\ Bud (os_maplimit 8192) ex_st1 /\ Shared ex_st1 /\ RunOk tree_quirks (os_maplimit 8192) ex_st1 ex_map_ops /\
+  map (fun r => (o_rc r, o_sp r)) (fst (run tree_quirks (os_maplimit 8192) ex_st1 ex_map_ops)) =
+    [(0, 0); (0, 3); (EXF_E_ERRNO, 0); (0, 4096); (0, 4096); (0, 4); (EXF_E_ERRNO, 0); (0, 4); (0, 0); (0, 8192); (0, 2); (0, 3)] /\
+  map o_data (fst (run tree_quirks (os_maplimit 8192) ex_st1 ex_map_ops)) = [[]; []; []; []; []; [1; 2; 3; 0]; []; [1; 2; 3; 0]; []; []; []; [0; 7; 7]] /\
+  fst (step tree_quirks os_any (snd (run tree_quirks (os_maplimit 8192) ex_st1 ex_map_ops)) (OEnsure 16384)) = mkOut 0 0 [].
+Proof.
+  destruct ex_st1_ok as [A [B C]]. split; [exact A |].
+  split; [split; [apply mono_maplimit | reflexivity] |]. split; [exact B |].
+  split; [apply runok_b_ok; vm_compute; reflexivity | repeat split; vm_compute; reflexivity].
+Qed.
+
+(* a concrete history with a MAP_PRIVATE window over the first page (bounded, so growth does not remap it) and a shared one
+   over the second: a write that straddles both, a growth, a copy through the first window, writes through the file - every
+   read returns the bytes last written; the hypotheses of (3b) hold (PRunOk) *)
+Definition ex_st2 : exf := snd (exfile_open tree_quirks os_any [] 8192 0 PDefault).
+Lemma ex_st2_ok : Inv ex_st2 /\ Shared ex_st2 /\ Full ex_st2.
+Proof. apply opened_inv; vm_compute; intuition congruence. Qed.
+Definition ex_priv_ops : list op :=
+  [OAddMmap 0 4096 1; OAddMmap 4096 4096 0; OWrite 4090 [1; 2; 3; 4; 5; 6; 7; 8; 9; 10]; ORead 4088 14; OEnsure 16384; OCopy 4090 6 100;
+   ORead 100 6; ORead 4088 14; OWrite 8192 [7; 7]; ORead 8190 4; OProbe 0; ORemoveMmap 4096; ORead 4094 4].
+Example C12_private_ex :
+  Inv ex_st2 /\ Full ex_st2 /\ MapAll os_any /\ PRunOk tree_quirks os_any ex_st2 ex_priv_ops /\
+  map o_data (fst (run tree_quirks os_any ex_st2 ex_priv_ops)) =
+    [[]; []; []; [0; 0; 1; 2; 3; 4; 5; 6; 7; 8; 9; 10; 0; 0]; []; []; [1; 2; 3; 4; 5; 6]; [0; 0; 1; 2; 3; 4; 5; 6; 7; 8; 9; 10; 0; 0]; [];
+     [0; 0; 7; 7]; []; []; [5; 6; 7; 8]] /\
+  map o_rc (fst (run tree_quirks os_any ex_st2 ex_priv_ops)) = [0; 0; 0; 0; 0; 0; 0; 0; 0; 0; 0; 0; 0] /\
+  map s_priv (slots (snd (run tree_quirks os_any ex_st2 ex_priv_ops))) = [true] /\
+  pread (file (snd (run tree_quirks os_any ex_st2 ex_priv_ops))) 4090 6 = [0; 0; 0; 0; 0; 0].
+Proof.
+  destruct ex_st2_ok as [A [B C]]. split; [exact A |]. split; [exact C |]. split; [exact mapall_any |].
+  split; [apply prunok_b_ok; vm_compute; reflexivity | repeat split; vm_compute; reflexivity].
+Qed.
+
+(* (3b) cannot be had without its condition.  The naive statement "with private windows every read returns the most recent bytes
+   written" is false of the model - and of the library (corpus/C12/07, 08):
+   - a growth remaps the whole-file private window, the byte written through it is gone (it never reached the file); *)
+Theorem C12_private_remap_refuted : exists st, Inv st /\ Full st /\
+  let rs := fst (run tree_quirks os_any st [OAddMmap 0 18446744073709551615 1; OWrite 0 [170]; ORead 0 1; OEnsure 8192; ORead 0 1]) in
+  map o_rc rs = [0; 0; 0; 0; 0] /\ map o_data rs = [[]; []; [170]; []; [0]].
+Proof. exists ex_st1. destruct ex_st1_ok as [A [B C]]. split; [exact A |]. split; [exact C |]. vm_compute. split; reflexivity. Qed.
+Print Assumptions C12_private_remap_refuted.
+
+(*   - a copy that goes through the file reads the file, not the bytes written through the private window *)
+Theorem C12_private_copy_refuted : exists st, Inv st /\ Full st /\
+  let rs := fst (run tree_quirks os_any st [OAddMmap 4096 4096 1; OWrite 4096 [170]; ORead 4096 1; OCopy 4096 1 0; ORead 0 1]) in
+  map o_rc rs = [0; 0; 0; 0; 0] /\ map o_data rs = [[]; []; [170]; []; [0]].
+Proof. exists ex_st2. destruct ex_st2_ok as [A [B C]]. split; [exact A |]. split; [exact C |]. vm_compute. split; reflexivity. Qed.
+Print Assumptions C12_private_copy_refuted.
+
 (* the unrepaired variants of the three places are refuted on the model (replays: corpus/C12) *)
-Definition ex_st1 : exf := snd (exfile_open os_any [] 4096 0 PDefault).
 Theorem C12_copy_ensure_refuted : exists st, Inv st /\
   let st' := snd (exfile_copy orig_quirks os_any st 0 3 8192) in zlen (file st') <> fsize st'.
-Proof.
-  exists ex_st1. split.
-  - assert (HP : PsOk EXF_PSIZE) by (exists 12; split; [Lia.lia | reflexivity]).
-    destruct (exfile_open os_any [] 4096 0 PDefault) as [rc st] eqn:E.
-    assert (Hrc : rc = 0) by (vm_compute in E; inversion E; reflexivity).
-    unfold ex_st1. rewrite E. simpl.
-    refine (proj1 (open_inv os_any [] 4096 0 PDefault rc st HP _ _ _ _ _ E Hrc)); try (vm_compute; intuition congruence).
-  - vm_compute. intros H; discriminate H.
-Qed.
+Proof. exists ex_st1. split; [exact (proj1 ex_st1_ok) |]. vm_compute. intros H; discriminate H. Qed.
 Print Assumptions C12_copy_ensure_refuted.
 
 Theorem C12_mul_policy_refuted : exists nsize, 0 <= nsize <= LIM /\
@@ -175,17 +340,91 @@ Theorem C12_mul_policy_refuted : exists nsize, 0 <= nsize <= LIM /\
 Proof. exists 1. vm_compute. intuition congruence. Qed.
 Print Assumptions C12_mul_policy_refuted.
 
+Definition ex_st3 : exf := snd (exfile_open tree_quirks os_any [] 12288 0 PDefault).
+Lemma ex_st3_ok : Inv ex_st3 /\ Shared ex_st3 /\ Full ex_st3.
+Proof. apply opened_inv; vm_compute; intuition congruence. Qed.
 Theorem C12_copy_src_refuted : exists st, Inv st /\ fst (exfile_copy orig_quirks os_any st 8192 8 0) = EXF_CRASH.
 Proof.
-  exists (snd (add_mmap_lw (snd (exfile_open os_any [] 12288 0 PDefault)) 0 4096 0)). split.
-  - assert (HP : PsOk EXF_PSIZE) by (exists 12; split; [Lia.lia | reflexivity]).
-    destruct (exfile_open os_any [] 12288 0 PDefault) as [rc st] eqn:E.
-    assert (Hrc : rc = 0) by (vm_compute in E; inversion E; reflexivity).
-    assert (HI : Inv st).
-    { refine (proj1 (open_inv os_any [] 12288 0 PDefault rc st HP _ _ _ _ _ E Hrc)); try (vm_compute; intuition congruence).
-      }
-    simpl. destruct (add_mmap_lw st 0 4096 0) as [rc2 st2] eqn:E2. simpl.
-    refine (proj1 (add_mmap_lw_inv st 0 4096 0 rc2 st2 HI _ _ _ E2)); vm_compute; intuition congruence.
+  exists (snd (add_mmap_lw os_any ex_st3 0 4096 0)). split.
+  - destruct ex_st3_ok as [A _]. destruct (add_mmap_lw os_any ex_st3 0 4096 0) as [rc2 st2] eqn:E2. simpl.
+    refine (proj1 (add_mmap_lw_spec os_any ex_st3 0 4096 0 rc2 st2 A (budget_any _) _ _ E2)); vm_compute; intuition congruence.
   - vm_compute. reflexivity.
 Qed.
 Print Assumptions C12_copy_src_refuted.
+
+(* ... false of the unrepaired variant (the tree as it is: EXF_ACQ_FAIL_UNLOCKS = false): acquire_mmap of an offset that has no
+   window answers IWFS_ERROR_NOT_MMAPED and keeps the read lock; the next call that needs the write lock never returns
+   (corpus/C12/10) *)
+Theorem C12_acquire_leak_refuted : exists st, Inv st /\
+  let '(r1, h1, st1) := lstep orig_quirks os_any 0 st (OAcquire 8192) in
+  o_rc r1 = EXF_E_NOTMM /\ h1 = 1 /\ o_rc (fst (fst (lstep orig_quirks os_any h1 st1 (OTruncate 8192)))) = EXF_HANG.
+Proof. exists ex_st1. split; [exact (proj1 ex_st1_ok) |]. vm_compute. repeat split; reflexivity. Qed.
+Print Assumptions C12_acquire_leak_refuted.
+
+(* ---------------------------------------------------------------------------------------------- *)
+(* (6) the plain file underneath, src/fs/iwfile.c (model FS/ExfFile.v).
+   The normalisation of the open options in iwfs_file_open, for every omode (uint8_t) and every lock mode below 16 (three defined
+   bits), every file mode: normalising twice is normalising once; IWFS_OREAD is always set, IWFS_OTRUNC brings IWFS_OWRITE and
+   IWFS_OCREATE, IWFS_OTMP brings IWFS_OTRUNC and the write lock, IWFS_OCREATE and IWFS_OUNLINK bring IWFS_OWRITE, there is no
+   write lock without IWFS_OWRITE, no requested bit is dropped, and no mode at all means read/write/create *)
+Theorem C12_file_norm_idem : forall o, 0 <= fo_omode o < 256 -> 0 <= fo_lock o < 16 -> norm_opts (norm_opts o) = norm_opts o.
+Proof. exact norm_idem. Qed.
+Print Assumptions C12_file_norm_idem.
+
+Theorem C12_file_norm_rules : forall om lk, 0 <= om < 256 -> 0 <= lk < 16 -> norm_facts om lk.
+Proof. exact norm_facts_all. Qed.
+Print Assumptions C12_file_norm_rules.
+
+(* what an open does and what the next open sees: an existing file is never refused, IWFS_OTRUNC empties it (status NEW), otherwise
+   its bytes are kept (status EXISTING); a missing file is created empty exactly when the normalised mode has IWFS_OCREATE, else
+   the answer is IW_ERROR_NOT_EXISTS and there is still no file; the next open sees the bytes the closed handle held *)
+Theorem C12_file_open_existing : forall o b, 0 <= fo_omode o < 256 -> 0 <= fo_lock o < 16 ->
+  let n := norm_opts o in
+  let b' := if has (fo_omode n) EXF_OTRUNC then [] else b in
+  file_open o (Some b) =
+    (0, Some (mkPf n (if has (fo_omode n) EXF_OTRUNC then EXF_OPEN_NEW else EXF_OPEN_EXISTING) b'), Some b').
+Proof. exact file_open_existing. Qed.
+Print Assumptions C12_file_open_existing.
+
+Theorem C12_file_open_missing : forall o, 0 <= fo_omode o < 256 -> 0 <= fo_lock o < 16 ->
+  let n := norm_opts o in
+  file_open o None =
+    if has (fo_omode n) EXF_OCREATE then (0, Some (mkPf n EXF_OPEN_NEW []), Some []) else (EXF_E_NOT_EXISTS, None, None).
+Proof. exact file_open_missing. Qed.
+Print Assumptions C12_file_open_missing.
+
+Theorem C12_file_next_open : forall p o, 0 <= fo_omode o < 256 -> 0 <= fo_lock o < 16 ->
+  has (fo_omode (pf_opts p)) EXF_OUNLINK = false -> has (fo_omode (norm_opts o)) EXF_OTRUNC = false ->
+  file_open o (pf_close p) = (0, Some (mkPf (norm_opts o) EXF_OPEN_EXISTING (pf_bytes p)), Some (pf_bytes p)).
+Proof. exact close_then_open. Qed.
+Print Assumptions C12_file_next_open.
+
+(* counts at the end of the file: a read transfers min n (size - off) bytes (none beyond the end) and answers 0; a write on a
+   writable file transfers everything, extends the file to off + n, reads back, leaves every other byte alone (the gap reads as zero);
+   a read-only handle refuses write and copy *)
+Theorem C12_file_read_count : forall p off n, 0 <= off -> 0 <= n ->
+  pf_read p off n = (0, Z.max 0 (Z.min n (zlen (pf_bytes p) - off)), pread (pf_bytes p) off n).
+Proof. exact pf_read_count. Qed.
+Print Assumptions C12_file_read_count.
+
+Theorem C12_file_write : forall p off d, has (fo_omode (pf_opts p)) EXF_OWRITE = true -> 0 <= off -> d <> [] ->
+  let '(rc, sp, p') := pf_write p off d in
+  rc = 0 /\ sp = Some (zlen d) /\ zlen (pf_bytes p') = Z.max (zlen (pf_bytes p)) (off + zlen d) /\
+  pread (pf_bytes p') off (zlen d) = d /\
+  forall x, 0 <= x -> ~ (off <= x < off + zlen d) -> znth x (pf_bytes p') = znth x (pf_bytes p).
+Proof. exact pf_write_spec. Qed.
+Print Assumptions C12_file_write.
+
+Theorem C12_file_readonly : forall q p off d siz noff, has (fo_omode (pf_opts p)) EXF_OWRITE = false ->
+  pf_write p off d = (EXF_E_READONLY, None, p) /\ pf_copy q p off siz noff = (EXF_E_READONLY, p).
+Proof. exact pf_readonly. Qed.
+Print Assumptions C12_file_readonly.
+
+Example C12_file_ex :
+  norm_opts (mkFo 0 0 0) = mkFo (Z.lor (Z.lor EXF_OREAD EXF_OWRITE) EXF_OCREATE) EXF_NOLOCK EXF_DEFAULT_FILEMODE /\
+  norm_opts (mkFo EXF_OTMP 0 0) = mkFo 47 EXF_WLOCK EXF_DEFAULT_FILEMODE /\
+  norm_opts (mkFo EXF_OREAD (Z.lor EXF_WLOCK EXF_NBLOCK) 420) = mkFo EXF_OREAD EXF_NBLOCK 420 /\
+  fst (fst (file_open (mkFo EXF_OWRITE 0 0) None)) = EXF_E_NOT_EXISTS /\
+  (let '(rc, h, k) := file_open (mkFo 0 0 0) None in
+   rc = 0 /\ k = Some [] /\ match h with Some p => fst (pf_read (snd (pf_write p 3 [7; 8])) 0 10) = (0, 5) | None => False end).
+Proof. vm_compute. repeat split. Qed.
